@@ -11,7 +11,7 @@ package stackitem
 //@ prop C13
 //@ import big math/big
 //@ import bigint github.com/nspcc-dev/neo-go/pkg/encoding/bigint
-//@ pkg-invariant errTooBigInteger != nil
+//@ pkg-invariant errTooBigInteger != nil && errTooBigKey != nil
 
 //@ spec in256(x int) bool = -big.two255() <= x && x < big.two255()
 
@@ -155,3 +155,16 @@ package stackitem
 //@ requires wfMap(i)
 //@ ensures[pos] result >= 0 ==> result < len(i.value) && has(i.dict, hcOf(key)) && i.dict[hcOf(key)] == result
 //@ ensures[absent] (result < 0) == !has(i.dict, hcOf(key))
+
+// ---- byte view (PICKITEM on byte strings) and map-key validity
+//@ spec validKey(it Item) bool = is(it, Bool) || is(it, *BigInteger) || (is(it, *ByteArray) && len(*it.(*ByteArray)) <= MaxKeySize)
+//@ iface Item.TryBytes
+//@ assumed
+//@ pure
+//@ requires wfItem(recv)
+//@ ensures[bytes] is(recv, *ByteArray) ==> result1 == nil && same(result0, *recv.(*ByteArray))
+//@ func (ByteArray).TryBytes
+//@ ensures result1 == nil && same(result0, i)
+//@ func IsValidMapKey
+//@ requires wfItem(key)
+//@ ensures[valid] (result == nil) == validKey(key)
